@@ -332,7 +332,7 @@ inductive Stage where
   | sample (loc : List Nat)               -- position of the option dict inside the pipeline object
   | addFields (fields : List (String × AExpr))
   | project (noId : Bool) (incl : List String) (computed : List (String × AExpr))
-  | unwind (key : String) (preserve : Bool)
+  | unwind (key : String) (preserve : Bool) (idx : Option (List String))   -- idx: includeArrayIndex, split at the dots
   | lookup (frm loc frn as : String)
   | replaceRoot (e : AExpr)
   | count (name : String)
@@ -517,25 +517,62 @@ def hasDup : List Id → Bool
   | [] => false
   | i :: r => r.contains i || hasDup r
 
-/-- `$unwind` (1391-1418) for a top-level field -/
-def unwindDoc (D : Disc) (key : String) (preserve : Bool) (doc : HV) (n : Nat) : List HV × Nat :=
-  match doc.get key with
-  | none => (if preserve then [doc] else [], n)
-  | some (.atom .null) => (if preserve then [doc] else [], n)
-  | some (.node _ false []) =>
-    if preserve then ([(D.unwindDoc.run doc n).1.delLocal key], (D.unwindDoc.run doc n).2) else ([], n)
-  | some (.node _ false items) =>
-    items.foldl (fun acc kv =>
-      let c := D.unwindDoc.run doc acc.2
-      (acc.1 ++ [c.1.setLocal key kv.2], c.2)) ([], n)
-  | some other =>
-    ([(D.unwindDoc.run doc n).1.setLocal key other], (D.unwindDoc.run doc n).2)
+/-- the model follows an `includeArrayIndex` only under a discipline that writes it into deep
+    copies (there the sub-documents a dotted index name goes through are private to the copy) -/
+def Disc.indexPrivate (D : Disc) : Bool :=
+  match D.unwindDoc, D.unwindIndexed with
+  | .deep, .deep => true
+  | _, _ => false
 
-def unwindAll (D : Disc) (key : String) (preserve : Bool) : List HV → Nat → List HV × Nat
+/-- `_set_index(doc, index)` on a document that is a deep copy: the sub-documents a dotted name
+    goes through are entered where they are documents and created where they are not -/
+def setIndex (idx : Option (List String)) (v : Val) (x : HV) (n : Nat) : HV × Nat :=
+  match idx with
+  | none => (x, n)
+  | some p => setPathCopy .none (.atom v) p x n
+
+/-- `_preserved(doc)`: a document kept although it has nothing to unwind is handed on as it is —
+    unless an index is asked for: then a copy of it gets a null index -/
+def keptDoc (D : Disc) (idx : Option (List String)) (doc : HV) (n : Nat) : HV × Nat :=
+  match idx with
+  | none => (doc, n)
+  | some p => setPathCopy .none (.atom .null) p (D.unwindIndexed.run doc n).1 (D.unwindIndexed.run doc n).2
+
+/-- one output document per element: a copy of the document around the ORIGINAL element, with the
+    element's position when an index is asked for -/
+def unwindItems (D : Disc) (key : String) (idx : Option (List String)) (doc : HV) :
+    Kids → Nat → Nat → List HV × Nat
+  | [], _, n => ([], n)
+  | (_, item) :: r, i, n =>
+    ((setIndex idx (.int i) ((D.unwindDoc.run doc n).1.setLocal key item) (D.unwindDoc.run doc n).2).1 ::
+      (unwindItems D key idx doc r (i + 1)
+        (setIndex idx (.int i) ((D.unwindDoc.run doc n).1.setLocal key item) (D.unwindDoc.run doc n).2).2).1,
+     (unwindItems D key idx doc r (i + 1)
+        (setIndex idx (.int i) ((D.unwindDoc.run doc n).1.setLocal key item) (D.unwindDoc.run doc n).2).2).2)
+
+/-- `$unwind` for a top-level field -/
+def unwindDoc (D : Disc) (key : String) (preserve : Bool) (idx : Option (List String)) (doc : HV)
+    (n : Nat) : List HV × Nat :=
+  match doc.get key with
+  | none => if preserve then ([(keptDoc D idx doc n).1], (keptDoc D idx doc n).2) else ([], n)
+  | some (.atom .null) => if preserve then ([(keptDoc D idx doc n).1], (keptDoc D idx doc n).2) else ([], n)
+  | some (.node _ false []) =>
+    if preserve then
+      ([(keptDoc D idx ((D.unwindDoc.run doc n).1.delLocal key) (D.unwindDoc.run doc n).2).1],
+       (keptDoc D idx ((D.unwindDoc.run doc n).1.delLocal key) (D.unwindDoc.run doc n).2).2)
+    else ([], n)
+  | some (.node _ false items) => unwindItems D key idx doc items 0 n
+  | some other =>
+    -- a value that is no array is one element without a position
+    ([(setIndex idx .null ((D.unwindDoc.run doc n).1.setLocal key other) (D.unwindDoc.run doc n).2).1],
+     (setIndex idx .null ((D.unwindDoc.run doc n).1.setLocal key other) (D.unwindDoc.run doc n).2).2)
+
+def unwindAll (D : Disc) (key : String) (preserve : Bool) (idx : Option (List String)) :
+    List HV → Nat → List HV × Nat
   | [], n => ([], n)
   | d :: r, n =>
-    let a := unwindDoc D key preserve d n
-    let b := unwindAll D key preserve r a.2
+    let a := unwindDoc D key preserve idx d n
+    let b := unwindAll D key preserve idx r a.2
     (a.1 ++ b.1, b.2)
 
 /-- `_project_by_spec` for top-level names, inclusion: a new dict around the same values -/
@@ -657,12 +694,13 @@ mutual
       match projectAll D w.pipe noId incl computed w.work w.nextTmp with
       | .ok (vs, n) => .ok { w with work := vs, nextTmp := n }
       | .error e => .error e
-    | .unwind key preserve =>
+    | .unwind key preserve idx =>
       -- `copy.deepcopy` keeps the sharing INSIDE a document (memo); `deepTmp` does not: a document
       -- in which one object occurs twice is outside the model
       if w.work.any (fun d => hasDup d.ids) then .error .unmodelled
+      else if idx.isSome && !D.indexPrivate then .error .unmodelled
       else
-        let r := unwindAll D key preserve w.work w.nextTmp
+        let r := unwindAll D key preserve idx w.work w.nextTmp
         .ok { w with work := r.1, nextTmp := r.2 }
     | .lookup frm loc frn as => lookupAll D sem frm loc frn as w w.work.length 0
     | .replaceRoot e =>
@@ -764,19 +802,36 @@ def parseProject (loc : List Nat) (kids : Kids) : Stage :=
       ((rest.filter (fun kvi => projFlag kvi.1.2 == none)).map
         (fun kvi => (kvi.1.1, parseExpr (loc ++ [kvi.2]) kvi.1.2)))
 
+/-- `options.get('includeArrayIndex')`: `some none` = no index (absent or falsy), `none` = outside
+    the model: an index name that is no string, a `$`-name, or a dotted name that goes through
+    the unwound field itself (there `_set_index` enters the re-attached ORIGINAL element) -/
+def parseIndex (key : String) : Option HV → Option (Option (List String))
+  | none => some none
+  | some (.atom .null) => some none
+  | some (.atom (.str s)) =>
+    if s == "" then some none
+    else if isDollar s then none
+    else if (splitDots s).head? == some key && (splitDots s).length != 1 then none
+    else some (some (splitDots s))
+  | some _ => none
+
 def parseUnwind : HV → Stage
   | .atom (.str s) =>
-    if isDollar s && (splitDots s).length == 1 then .unwind (String.ofList (s.toList.drop 1)) false
+    if isDollar s && (splitDots s).length == 1 then .unwind (String.ofList (s.toList.drop 1)) false none
     else .fail .unmodelled
   | .node _ true kids =>
     match kget "path" kids with
     | some (.atom (.str s)) =>
-      if kids.any (fun kv => kv.1 != "path" && kv.1 != "preserveNullAndEmptyArrays") then .fail .unmodelled
+      if kids.any (fun kv => kv.1 != "path" && kv.1 != "preserveNullAndEmptyArrays" &&
+                             kv.1 != "includeArrayIndex") then .fail .unmodelled
       else if isDollar s && (splitDots s).length == 1 then
-        .unwind (String.ofList (s.toList.drop 1))
-          (match kget "preserveNullAndEmptyArrays" kids with
-           | some v => v.toVal.truthy
-           | none => false)
+        match parseIndex (String.ofList (s.toList.drop 1)) (kget "includeArrayIndex" kids) with
+        | some idx =>
+          .unwind (String.ofList (s.toList.drop 1))
+            (match kget "preserveNullAndEmptyArrays" kids with
+             | some v => v.toVal.truthy
+             | none => false) idx
+        | none => .fail .unmodelled
       else .fail .unmodelled
     | _ => .fail .unmodelled
   | _ => .fail .unmodelled
